@@ -557,6 +557,23 @@ theorem formatGB_overflow :
   ⟨by decide +kernel, by decide +kernel, by decide +kernel, by decide +kernel, by decide +kernel,
     fmtGBgo_eq⟩
 
+/-- **F29 (finding), negative witness.**  The round trip above is about the exact decimal value
+of the printed text.  The real parser first rounds the literal to the nearest float32
+(`readGB32`: `tryParseFloat32`, then `roundUpTo`); from 256 GB on that rounding eats the margin
+`formatGB` relies on: 256 GB + 44 MB is printed as `256.042`, whose float32 is exactly
+256 GB + 43 MB, so the value read back is 1 MB smaller (and is then printed as `256.0419`).
+Below 256 GB no value fails (exhaustive replay on the real arithmetic, harness/c09res.go notes). -/
+theorem formatGB_float32_witness :
+    fmtGB 262188 = [0x32, 0x35, 0x36, 0x2E, 0x30, 0x34, 0x32] ∧
+    readGB (fmtGB 262188) = some 262188 ∧ readGB32 (fmtGB 262188) = some 262187 ∧
+    fmtGB 262187 = [0x32, 0x35, 0x36, 0x2E, 0x30, 0x34, 0x31, 0x39] ∧
+    -- values below 256 GB with the same fraction are read back correctly
+    readGB32 (fmtGB (262188 - 1024)) = some (262188 - 1024) ∧ readGB32 (fmtGB 44) = some 44 ∧
+    -- the float32 rounding of a literal: 0.5000000001 is 0.5 (exactly 512 MB), not 513 MB
+    readGB32 [0x30, 0x2E, 0x35, 0x30, 0x30, 0x30, 0x30, 0x30, 0x30, 0x30, 0x30, 0x31] = some 512 ∧
+    readGB [0x30, 0x2E, 0x35, 0x30, 0x30, 0x30, 0x30, 0x30, 0x30, 0x30, 0x30, 0x31] = some 513 := by
+  decide +kernel
+
 /-- **Resources.**  For every well-formed `Resources` (values of `int64` size, `special` valid
 UTF-8, `threads` a NUM_FLOAT in the float32 range or a canonical NUM_INT; any subset of the five
 entries, including none): the printed block, followed by any text, lexes as `) using (` + its
